@@ -23,6 +23,7 @@ EXPLANATION = (
     'ec_enc_bits/ec_dec_bits update nbits_total and rng identically, the uint coders split at the same EC_UINT_BITS, '
     'every update of rng is followed by a normalise call, and ec_dec_init reaches the encoder\'s initial '
     '(rng, nbits_total) = (2^31, 33). '
+    'R08.5 ec_enc_shrink moves the raw-bit tail from the old end (entry value of storage) to the new end and then updates storage; R08.6 ec_enc_done takes an extra terminator bit exactly when (end|msk) >= val+rng (half-open intervals). '
     'NOT decided: decode(encode(x)) = x, monotonicity of ec_tell_frac, "finishing cannot fail" - run-time theorems.')
 
 CONFIGS = {'quick': ['float'], 'thorough': ['float', 'fixed']}
@@ -42,6 +43,8 @@ def setup(rep, tier):
     rep.minimum('R08.1', 8)
     rep.minimum('R08.2', 7)
     rep.minimum('R08.3', 8)
+    rep.minimum('R08.5', 3)
+    rep.minimum('R08.6', 2)
 
 
 def r08_1(rep, prog):
@@ -305,7 +308,99 @@ def r08_3(rep, prog):
                                             **({} if ok else {'key': 'init-state'}))
 
 
+def _fld(e, name):
+    e = sx.strip(e)
+    return sx.kind(e) == 'field' and e[3] == name
+
+
+def r08_5(rep, prog):
+    """ec_enc_shrink relocates the raw-bit tail from the OLD end of the buffer
+    to the NEW end: the move's source is addressed with the storage value the
+    function was entered with, the destination with the new size, and storage
+    is updated on every path afterwards."""
+    f = prog.fn('ec_enc_shrink')
+    rep.functions.add(f.name)
+    cf = cfgm.CFG(f)
+    psz = f.param_index('_size')
+    moves = T.calls_to(cf, ('memmove', '__builtin_memmove', '__builtin___memmove_chk', '__memmove_chk'))
+    if len(moves) != 1 or psz is None:
+        rep.unresolved('R08.5', 'ec_enc_shrink: expected exactly one memmove and a _size parameter (found %d)' % len(moves), f.where())
+        return
+    mb, mi, mv = moves[0]
+    dst, src = mv[2][0], mv[2][1]
+    where = '%s:%s' % (f.file, sx.line(mv))
+    src_reads_storage = any(_fld(n, 'storage') for n in sx.walk(src))
+    dst_reads_size = any(sx.key(n) == ('param', psz) for n in sx.walk(dst))
+    dst_reads_storage = any(_fld(n, 'storage') for n in sx.walk(dst))
+    ok = src_reads_storage and dst_reads_size and not dst_reads_storage
+    (rep.holds if ok else rep.violated)('R08.5', '%s:ec_enc_shrink moves the tail from buf+storage to buf+_size' % prog.config, where,
+                                        'dst `%s`  src `%s`' % (sx.show(dst)[:60], sx.show(src)[:60]), **({} if ok else {'key': 'shrink-operands'}))
+    stores = T.stores_where(cf, lambda lv, n: _fld(lv, 'storage'))
+    early = [(b, i, n) for b, i, n in stores if (b == mb and i < mi) or (b != mb and mb in cf.reachable_from(b))]
+    if early:
+        b, i, n = early[0]
+        rep.violated('R08.5', '%s:ec_enc_shrink reads the old storage when it moves the tail' % prog.config, '%s:%s' % (f.file, sx.line(n)),
+                     '`%s` reaches the move: source and destination coincide and the raw-bit tail is left behind at the old end' % sx.show(n), key='shrink-stale-storage')
+    else:
+        rep.holds('R08.5', '%s:ec_enc_shrink reads the old storage when it moves the tail' % prog.config, where, 'no assignment to storage reaches the move')
+    late = [(b, i, n) for b, i, n in stores if (b == mb and i > mi) or (b != mb and b in cf.reachable_from(mb))]
+    ok = bool(late) and all(sx.key(sx.strip(n[2])) == ('param', psz) for b, i, n in late if n[0] == 'assign') and \
+        cf.must_pass(mb, {cf.exit}, {b for b, i, n in late} - ({mb} if not any(b == mb and i > mi for b, i, n in late) else set())) if late else False
+    if late and any(b == mb and i > mi for b, i, n in late):
+        ok = all(sx.key(sx.strip(n[2])) == ('param', psz) for b, i, n in late if n[0] == 'assign')
+    (rep.holds if ok else rep.violated)('R08.5', '%s:ec_enc_shrink sets storage = _size after the move' % prog.config, where,
+                                        [sx.show(n) for b, i, n in late] or 'no store to storage after the move', **({} if ok else {'key': 'shrink-storage-update'}))
+
+
+def r08_6(rep, prog):
+    """the terminator of ec_enc_done takes one more bit exactly when
+    (end|msk) >= val+rng: the coder's intervals are half open ([val,val+rng),
+    adjacent symbols share the bound), so the largest code value the chosen
+    bits can denote must stay strictly below val+rng"""
+    f = prog.fn('ec_enc_done')
+    rep.functions.add(f.name)
+    cf = cfgm.CFG(f)
+    hits = []
+    for b in cf.blocks:
+        c = cf.cond(b)
+        if c is None or cf.blocks[b]['term'].get('kind') != 'IfStmt':
+            continue
+        if any(_fld(n, 'rng') for n in sx.walk(c)) and any(_fld(n, 'val') for n in sx.walk(c)):
+            hits.append((b, c))
+    if len(hits) != 1:
+        rep.unresolved('R08.6', 'ec_enc_done: expected one branch comparing against val+rng, found %d' % len(hits), f.where())
+        return
+    b, c = hits[0]
+    at = guards.atoms(c, True)
+    where = '%s:%s' % (f.file, cf.blocks[b]['term'].get('l'))
+    shape = None
+    if len(at) == 1:
+        op, l, r = at[0]
+        def is_sum(k):
+            return isinstance(k, tuple) and k[0] == 'bin' and k[1] == '+' and {k[2][0], k[3][0]} == {'field'} and {k[2][2], k[3][2]} == {'val', 'rng'}
+        def is_or(k):
+            return isinstance(k, tuple) and k[0] == 'bin' and k[1] == '|'
+        if is_sum(l) and is_or(r):
+            shape = op            # val+rng OP end|msk
+        elif is_sum(r) and is_or(l):
+            shape = {'<': '>', '<=': '>='}.get(op, op) + '(flipped)'
+    if shape is None:
+        rep.unresolved('R08.6', 'ec_enc_done: terminator test `%s` has an unrecognised form' % sx.show(c), where)
+        return
+    ok = shape == '<='
+    (rep.holds if ok else rep.violated)('R08.6', '%s:ec_enc_done adds a terminator bit when (end|msk) >= val+rng (half-open interval)' % prog.config, where,
+                                        'test is `%s` (normalised: val+rng %s end|msk)' % (sx.show(c), shape),
+                                        **({} if ok else {'key': 'done-terminator-bound'}))
+    # the bits taken after the extra step use the same (val+msk)&~msk rounding in both places
+    ends = [n for n in f.all_nodes() if n[0] == 'assign' and sx.kind(n[1]) == 'local' and n[1][1] == 'end' and any(_fld(x, 'val') for x in sx.walk(n[2]))]
+    ok = len(ends) == 2 and sx.key(ends[0][2]) == sx.key(ends[1][2])
+    (rep.holds if ok else rep.violated)('R08.6', '%s:ec_enc_done rounds val up to the terminator grid the same way before and after the extra bit' % prog.config, f.where(),
+                                        [sx.show(n) for n in ends], **({} if ok else {'key': 'done-rounding'}))
+
+
 def check(rep, prog, tier):
+    r08_5(rep, prog)
+    r08_6(rep, prog)
     r08_1(rep, prog)
     r08_2(rep, prog)
     r08_3(rep, prog)
